@@ -395,6 +395,10 @@ func c14LuaVal(r *rand.Rand, depth int, root, nonFinite bool) *ref.V {
 			}
 			return ref.StrV("")
 		default:
+			if r.IntN(10) == 0 {
+				// a control character directly followed by a decimal digit: a decimal escape must not swallow the digit
+				return ref.StrV([]string{"\x015", "\x000", "\x1f9", "a\x7f1", "\x0e77", "nul\x00end", "\x0212 and \x1b[0m", "\x06" + "6", "\x7f" + "0x"}[r.IntN(9)])
+			}
 			return ref.StrV(C14Text(r))
 		}
 	}
